@@ -187,16 +187,28 @@ func checkC11(c *Ctx) {
 	}
 
 	// ---- C11-KEYS
-	reserved := func(fn string) map[string]bool {
+	reserved := func(fn string, writer bool) map[string]bool {
 		out := map[string]bool{}
 		fd := c.funcDecl(fn)
 		if fd == nil {
 			c.undecided("C11-KEYS", fn, "anchor", token.NoPos, "function not found")
 			return out
 		}
+		// literals that are only compared with (a test of a user key against a reserved name) are neither written nor consumed
+		compared := map[*ast.BasicLit]bool{}
+		ast.Inspect(fd.Body, func(n ast.Node) bool {
+			if be, ok := n.(*ast.BinaryExpr); ok && writer && (be.Op == token.EQL || be.Op == token.NEQ) {
+				for _, e := range []ast.Expr{be.X, be.Y} {
+					if bl, ok := e.(*ast.BasicLit); ok {
+						compared[bl] = true
+					}
+				}
+			}
+			return true
+		})
 		ast.Inspect(fd.Body, func(n ast.Node) bool {
 			lit, ok := n.(*ast.BasicLit)
-			if !ok || lit.Kind != token.STRING {
+			if !ok || lit.Kind != token.STRING || compared[lit] {
 				return true
 			}
 			tv := c.Zygo.TypesInfo.Types[lit]
@@ -214,7 +226,7 @@ func checkC11(c *Ctx) {
 		return out
 	}
 	for _, pair := range [][2]string{{"SexpHash.jsonHashHelper", "decodeGoToSexpHelper"}, {"SexpToGo", "fillHashHelper"}, {"SexpHash.jsonHashHelper", "fillHashHelper"}, {"SexpToGo", "decodeGoToSexpHelper"}} {
-		w, r := reserved(pair[0]), reserved(pair[1])
+		w, r := reserved(pair[0], true), reserved(pair[1], false)
 		c.check(len(w) == 2 && len(r) == 2, "C11-KEYS", pair[0]+"→"+pair[1], "reserved keys agree", token.NoPos,
 			"encoder writes and decoder consumes Atype and zKeyOrder", fmt.Sprintf("reserved keys differ: encoder %v, decoder %v: type names or field order are lost or appear as data", keys(w), keys(r)))
 	}
